@@ -100,6 +100,12 @@ def evaluate(spec):
             out.fail("C02.patch-label", "unexpected-proxy", f"{base}: expected section {si} offset {pos}, got a proxy")
         elif got[0] != "pos" or got[1:] != (si, pos):
             out.fail("C02.patch-label", "position", f"{base}: expected section {si} offset {pos}, got {got}")
+    # symbols that label nothing (absolute value / no payload) are left alone
+    for name, (sym, val) in sorted(getattr(r.built, "value_symbols", {}).items()):
+        if sym.module is not m:
+            out.fail("C02.live", "value-symbol-left-module", name)
+        elif sym.value != val or sym.referent is not None:
+            out.fail("C02.position", "value-symbol-changed", f"{name}: value {sym.value!r} referent {sym.referent!r}, expected value {val!r}")
     # nothing refers to a dead block
     for s in m.symbols:
         ref = s.referent
